@@ -158,6 +158,16 @@ CHECKS = {
             "the model for corpus, random and clash schemas; tag lists are compared in schema order (type_tags as a set).",
             "the python model encodes the documented presence/offset/inheritance rules; traits of built-in types are C16's",
             "DESIGN.md section 3, C18"),
+    "C11": ("exploration",
+            "generated detection-idiom table for every mutator x byte/cursor constness (printed by running the probe), "
+            "confirming negative compiles, and all read-only operations executed on PROT_READ memory through mutable view types",
+            "For every generated view class member of corpus and random schemas the probe reports whether each setter form, "
+            "header filler, group/array/<data> mutator and conversion is callable; callable must hold exactly when view and "
+            "cursor are mutable (mutable rows must be callable, so rejecting everything cannot pass). The run-time half "
+            "executes every decode mode, visit and size_bytes_checked on read-only pages: a write is a hardware fault.",
+            "the compiler is the oracle of the static half (a generated compile test, see DESIGN section 4); iterator "
+            "conversions are not part of the property",
+            "DESIGN.md section 3, C11"),
 }
 
 
